@@ -86,7 +86,7 @@ impl Report {
     pub fn unanalysable(&mut self, role: &str, what: &[String]) {
         for w in what {
             // state of the bound(...) resolution carried across iterations concerns the bounds properties only
-            if w.starts_with("loop-carried bounds flag") && self.prop != "C03" && self.prop != "C04" { self.notes.push(format!("ignored for this property: {w}")); continue; }
+            if w.starts_with("loop-carried bounds flag") && self.prop != "C03" && self.prop != "C04" && self.prop != "C20" { self.notes.push(format!("ignored for this property: {w}")); continue; }
             if w.starts_with("soft:") { self.notes.push(format!("not fatal: {w}")); continue; }
             // a rule decided inside the evaluator, reported under its own name
             if let Some(rest) = w.strip_prefix("rule:") {
